@@ -28,15 +28,15 @@ func c18Replay(t *testing.T, rec *vh.Rec) bool {
 
 // Exhaustive alphabet: 3 addresses x scripted verdict, two advances chosen so that the boundaries
 // are hit exactly (300 s = the short lifetime; 3300 s + 300 s = the long lifetime), clear-expired.
-func c18Alphabet() []c18Op { return c18AlphabetMs(300_000, 3_300_000) }
+func c18Alphabet() []c18Op { return c18AlphabetMs(300_000, 3_300_000, 0, 1, 2) }
 
 // c18AlphabetMs: the same alphabet with the two advances given in milliseconds (short lifetime;
 // long lifetime minus short lifetime).
-func c18AlphabetMs(shortMs, restMs int64) []c18Op {
+func c18AlphabetMs(shortMs, restMs int64, a0, a1, a2 int) []c18Op {
 	q := func(a int, live bool) c18Op { return c18Op{Kind: "q", Addr: a, Port: 443, Live: live} }
 	adv := func(ms int64) c18Op { return c18Op{Kind: "adv", DeltaS: ms / 1000, DeltaMs: ms % 1000} }
 	return []c18Op{
-		q(0, true), q(0, false), q(1, true), q(1, false), q(2, true), q(2, false),
+		q(a0, true), q(a0, false), q(a1, true), q(a1, false), q(a2, true), q(a2, false),
 		adv(shortMs), adv(restMs), {Kind: "clear"},
 	}
 }
@@ -79,11 +79,11 @@ func c18ExhConfsD(long, short string, swapped, reduced bool) []c18Conf {
 }
 
 func TestVerif_C18_exhaustive(t *testing.T) {
-	rec := vh.NewRec("C18", "exhaustive", "every history of length 1..L over the 9-symbol alphabet {query A/B/C x probe verdict live/non-live, advance 300 s, advance 3300 s, clear-expired} on every configuration {live off / 1h} x {non-live off / 5m} x capacities {0,1,2}^2 (thorough: also with the two lifetimes swapped; the longest length on a reduced configuration set), plus the same product with lifetimes 1500ms / 500ms and advances 500 ms / 1000 ms up to length 4 (thorough 5); shortest histories first; non-trivial = the history contains a cache hit, an expiry followed by a re-probe with the opposite verdict, or an eviction; distinct by (configuration, history)")
+	rec := vh.NewRec("C18", "exhaustive", "every history of length 1..L over the 9-symbol alphabet {query A/B/C x probe verdict live/non-live, advance 300 s, advance 3300 s, clear-expired} on every configuration {live off / 1h} x {non-live off / 5m} x capacities {0,1,2}^2 (thorough: also with the two lifetimes swapped; the longest length on a reduced configuration set), plus the same product with lifetimes 1500ms / 500ms and advances 500 ms / 1000 ms up to length 4 (thorough 5), and the 1h / 5m product over three phantoms written as zoned IPv6, host name and zero-padded IPv4 up to length 4 (thorough 5); shortest histories first; non-trivial = the history contains a cache hit, an expiry followed by a re-probe with the opposite verdict, or an eviction; distinct by (configuration, history)")
 	defer rec.Flush()
 	rec.Require("hit-live", "hit-nonlive", "expiry-then-flip", "eviction", "reprobe-after-expiry", "reprobe-while-fresh", "clear-removed",
 		"conf:both", "conf:live-only", "conf:nonlive-only", "conf:uncached", "conf:capacity-live", "conf:capacity-nonlive")
-	rec.Require("conf:fractional-lifetime", "adv-subsecond", "query-within-1s-after-fractional-expiry")
+	rec.Require("conf:fractional-lifetime", "adv-subsecond", "query-within-1s-after-fractional-expiry", "addr:non-canonical-spelling", "addr:two-non-literal-phantoms")
 	if c18Replay(t, rec) {
 		return
 	}
@@ -96,7 +96,13 @@ func TestVerif_C18_exhaustive(t *testing.T) {
 	// a second family with lifetimes that are NOT whole seconds (live 1500ms, non-live 500ms) and
 	// advances of 500 ms and 1000 ms: every expiry falls exactly on a lifetime, strictly inside a
 	// second of age
-	fracAlpha := c18AlphabetMs(500, 1000)
+	fracAlpha := c18AlphabetMs(500, 1000, 0, 1, 2)
+	// a third family whose three phantoms are written as a zoned IPv6 address, a host name and a
+	// zero-padded IPv4 address (none is an IP literal for net.ParseIP): distinct strings are
+	// distinct phantoms
+	oddAlpha := c18AlphabetMs(300_000, 3_300_000, 6, 8, 10)
+	oddLen := vh.Pick(4, 5)
+	rec.Extra("max_len_non_literal_address_confs", oddLen)
 	fracLen := vh.Pick(4, 5)
 	rec.Extra("max_len_fractional_lifetime_confs", fracLen)
 	idx := 0
@@ -118,6 +124,9 @@ func TestVerif_C18_exhaustive(t *testing.T) {
 		}
 		if L <= fracLen {
 			fams = append(fams, fam{fracAlpha, c18ExhConfsD("1500ms", "500ms", false, false)[9:]})
+		}
+		if L <= oddLen {
+			fams = append(fams, fam{oddAlpha, c18ExhConfs(false, false)[9:]})
 		}
 		total := 1
 		for i := 0; i < L; i++ {
@@ -186,7 +195,7 @@ func c18Deltas(cf c18Conf) []int64 {
 	return out
 }
 
-func c18GenOp(rt *rapid.T, nAddr int, deltas []int64, depth int, nestP int, parent int) c18Op {
+func c18GenOp(rt *rapid.T, addrs []int, deltas []int64, depth int, nestP int, parent int) c18Op {
 	kinds := []string{"q", "q", "q", "q", "q", "q", "adv", "adv", "clear"}
 	k := rapid.SampledFrom(kinds).Draw(rt, "kind")
 	o := c18Op{Kind: k}
@@ -195,7 +204,7 @@ func c18GenOp(rt *rapid.T, nAddr int, deltas []int64, depth int, nestP int, pare
 		d := rapid.SampledFrom(deltas).Draw(rt, "delta_ms")
 		o.DeltaS, o.DeltaMs = d/1000, d%1000
 	case "q":
-		o.Addr = rapid.IntRange(0, nAddr-1).Draw(rt, "addr")
+		o.Addr = rapid.SampledFrom(addrs).Draw(rt, "addr")
 		if parent >= 0 && rapid.IntRange(0, 2).Draw(rt, "same") > 0 {
 			o.Addr = parent // overlap on the same address is the interesting case
 		}
@@ -205,20 +214,44 @@ func c18GenOp(rt *rapid.T, nAddr int, deltas []int64, depth int, nestP int, pare
 		if nestP > 0 && depth < 2 && rapid.IntRange(0, 99).Draw(rt, "nest") < nestP {
 			n := rapid.IntRange(1, 3).Draw(rt, "nnested")
 			for i := 0; i < n; i++ {
-				o.Nested = append(o.Nested, c18GenOp(rt, nAddr, deltas, depth+1, nestP, o.Addr))
+				o.Nested = append(o.Nested, c18GenOp(rt, addrs, deltas, depth+1, nestP, o.Addr))
 			}
 		}
 	}
 	return o
 }
 
+// c18GenAddrs draws the case's phantoms: lo..hi distinct entries of c18Addrs — canonical literals
+// and odd spellings mixed (half of the cases are forced to hold at least two addresses that are
+// not IP literals).
+func c18GenAddrs(rt *rapid.T, lo, hi int) []int {
+	addrs := rapid.SliceOfNDistinct(rapid.IntRange(0, len(c18Addrs)-1), lo, hi, func(i int) int { return i }).Draw(rt, "addrs")
+	if rapid.Bool().Draw(rt, "force_non_literal") {
+		nonLit := []int{6, 7, 8, 9, 10, 11}
+		a := rapid.SampledFrom(nonLit).Draw(rt, "nl0")
+		b := rapid.SampledFrom(nonLit).Draw(rt, "nl1")
+		have := map[int]bool{}
+		for _, x := range addrs {
+			have[x] = true
+		}
+		for i, x := range []int{a, b} {
+			if !have[x] && i < len(addrs) {
+				have[addrs[i]] = false
+				addrs[i] = x
+				have[x] = true
+			}
+		}
+	}
+	return addrs
+}
+
 func c18Gen(rt *rapid.T, maxOps, nestP int) c18Case {
 	cf := c18GenConf(rt)
-	nAddr := rapid.IntRange(4, 6).Draw(rt, "naddr")
+	addrs := c18GenAddrs(rt, 4, 6)
 	deltas := c18Deltas(cf)
 	// a slice generator (not "draw n, then n ops") so that rapid can delete operations anywhere
 	// in the history while shrinking
-	opGen := rapid.Custom(func(t *rapid.T) c18Op { return c18GenOp(t, nAddr, deltas, 0, nestP, -1) })
+	opGen := rapid.Custom(func(t *rapid.T) c18Op { return c18GenOp(t, addrs, deltas, 0, nestP, -1) })
 	// rapid's slice lengths are strongly biased to short: draw a minimum length first (a draw, so
 	// it shrinks too) to get long histories as well
 	lo := rapid.SampledFrom([]int{1, 1, maxOps / 8, maxOps / 3, maxOps * 3 / 5, maxOps}).Draw(rt, "minlen")
@@ -229,11 +262,11 @@ func c18Gen(rt *rapid.T, maxOps, nestP int) c18Case {
 }
 
 func TestVerif_C18_random(t *testing.T) {
-	rec := vh.NewRec("C18", "random", "rapid-generated sequential histories of 1-200 operations {query, advance, clear-expired} over 4-6 addresses (v4 and v6), ports {443,80}, scripted verdicts with the error values the real probe produces; configurations: lifetimes {off,0s,90s,5m,1h,500ms,999ms,1001ms,1500ms,2.5s,1m0.25s}^2 x capacities {0..4}^2; advances (ms resolution) biased to lifetime, lifetime+-1 ms, +400 ms, +999 ms, the next whole second, +-1 s and fractions; non-trivial as in the exhaustive sub-check; distinct by (configuration, history)")
+	rec := vh.NewRec("C18", "random", "rapid-generated sequential histories of 1-200 operations {query, advance, clear-expired} over 4-6 phantoms drawn from 14 address strings (canonical v4/v6 literals, zoned v6 with two zones, two host names, zero-padded and space-prefixed v4, upper-case and v4-mapped v6; each string a host of its own), ports {443,80}, scripted verdicts with the error values the real probe produces; configurations: lifetimes {off,0s,90s,5m,1h,500ms,999ms,1001ms,1500ms,2.5s,1m0.25s}^2 x capacities {0..4}^2; advances (ms resolution) biased to lifetime, lifetime+-1 ms, +400 ms, +999 ms, the next whole second, +-1 s and fractions; non-trivial as in the exhaustive sub-check; distinct by (configuration, history)")
 	defer rec.Flush()
 	rec.Require("hit-live", "hit-nonlive", "expiry-then-flip", "eviction-live", "eviction-nonlive", "reprobe-after-expiry", "clear-removed",
 		"conf:both", "conf:live-only", "conf:nonlive-only", "conf:uncached", "conf:capacity-live", "conf:capacity-nonlive")
-	rec.Require("conf:fractional-lifetime", "adv-subsecond", "query-within-1s-after-fractional-expiry")
+	rec.Require("conf:fractional-lifetime", "adv-subsecond", "query-within-1s-after-fractional-expiry", "addr:non-canonical-spelling", "addr:two-non-literal-phantoms")
 	if c18Replay(t, rec) {
 		return
 	}
@@ -245,7 +278,7 @@ func TestVerif_C18_random(t *testing.T) {
 func TestVerif_C18_overlap(t *testing.T) {
 	rec := vh.NewRec("C18", "overlap", "as the random sub-check (up to 80 top-level operations) but 30% of the queries have 1-3 further operations (nesting depth <= 2, two thirds of them on the same address) executed while their probe is in flight — every interleaving at the point where PhantomIsLive holds no lock, replayable; for an address with overlapping probes the oracle accepts any verdict measured within its lifetime; non-trivial as in the exhaustive sub-check; distinct by (configuration, history)")
 	defer rec.Flush()
-	rec.Require("overlap-same-address", "hit-with-both-verdicts-in-lifetime", "hit-live", "hit-nonlive", "eviction", "nested")
+	rec.Require("addr:two-non-literal-phantoms", "overlap-same-address", "hit-with-both-verdicts-in-lifetime", "hit-live", "hit-nonlive", "eviction", "nested")
 	if c18Replay(t, rec) {
 		return
 	}
